@@ -598,6 +598,7 @@ func runFrame(fr *frame) {
 		}
 		for _, instr := range nonPhis {
 			fr.cur = instr
+			w.curFrame = fr
 			if w.trace && w.traceInstr {
 				if v, ok := instr.(ssa.Value); ok {
 					fmt.Fprintln(w.traceOut, "\t", v.Name(), "=", instr)
